@@ -148,7 +148,10 @@ class C33(Prop):
         "collinear points (the non-parallel branches of segments_3d) are not modelled.  Zero-length "
         "cells present in both tessellations at one point make the code raise IndexError; such "
         "inputs are treated as outside the property (not a tessellation) by the oracle, and the "
-        "model/theorem C33_1d_error_iff state exactly when it happens.")
+        "model/theorem C33_1d_error_iff state exactly when it happens.  Defect found and repaired "
+        "(fix commit 2a8c98028): in floating precision GEOS dropped the overlap of nested triangles "
+        "with a vertex on the other's edge up to rounding; triangulations now intersects on a "
+        "precision grid.  surface_tessellations (same shapely call pattern) is not exercised.")
     technique = ("Coq proof (induction over the chained cells of one tessellation with the other fixed; "
                  "permutation invariance) + vm_compute execution correspondence; certificate check in 2-D")
     rule = ("1-D: random pairs of tessellations of a common interval with breakpoints in Z/64 on an "
@@ -156,9 +159,11 @@ class C33(Prop):
             "cell orientation; streams: identical partitions, one cell vs many, coinciding breakpoints "
             "(zero-length cells), reversed order, different extents (tie only); half through "
             "line_tessellation directly, half through match_1d on pp.Grid objects with the three "
-            "scalings.  2-D: pairs of Delaunay/structured triangulations of the unit square (dyadic "
-            "points, optionally embedded by a rational isometry) through match_2d with shapely's "
-            "output captured.  Non-trivial = both tessellations have >= 2 cells and differ.")
+            "scalings.  2-D: pairs of Delaunay/structured triangulations of the unit square "
+            "(optionally embedded by a rational isometry) through match_2d with shapely's "
+            "output captured; more than half of the pairs have strongly different resolutions in "
+            "either order (structured n x n with n up to 8/12, Delaunay of jittered uniform lattices, "
+            "anisotropic n x 1..2, graded tensor lattices, dense random Delaunay — against 1x1, 2x2, 1x2 or corner-only triangulations).  Non-trivial = both tessellations have >= 2 cells and differ.")
     trusted = ["shapely polygon intersection and area (2-D): contract assumed in the theorems, "
                "validated to 1e-9 on every generated pair",
                "tolerance comparisons of segments_3d replaced by exact comparisons (inputs are "
@@ -238,10 +243,11 @@ class C33(Prop):
             case["flip"] = [rng.random() < 0.3, rng.random() < 0.3]
         return case
 
-    def _tri_points(self, rng, tier):
-        m = 16
-        n_in = rng.randint(0, 5 if tier == "quick" else 12)
-        n_bd = rng.randint(0, 4 if tier == "quick" else 8)
+    def _tri_points(self, rng, tier, n_in=None, n_bd=None, m=16):
+        if n_in is None:
+            n_in = rng.randint(0, 5 if tier == "quick" else 12)
+        if n_bd is None:
+            n_bd = rng.randint(0, 4 if tier == "quick" else 8)
         pts = {(0, 0), (m, 0), (0, m), (m, m)}
         for _ in range(n_in):
             pts.add((rng.randint(1, m - 1), rng.randint(1, m - 1)))
@@ -252,18 +258,81 @@ class C33(Prop):
         rng.shuffle(pts)
         return [[x / m for x, _ in pts], [y / m for _, y in pts]]
 
+    def _graded_points(self, rng):
+        """tensor product of two graded coordinate sets (refined towards a corner/edge)"""
+        def axis():
+            k = rng.randint(2, 5)
+            xs = [0.0] + [2.0 ** -e for e in range(k, -1, -1)]      # 0, 2^-k, ..., 1/2, 1
+            if rng.random() < 0.5:
+                xs = sorted(1.0 - x for x in xs)
+            return xs if rng.random() < 0.8 else [0.0, 1.0]
+        xs, ys = axis(), axis()
+        if len(xs) == 2 and len(ys) == 2:
+            xs = [0.0, 0.125, 0.25, 0.5, 1.0]
+        pts = [(x, y) for x in xs for y in ys]
+        rng.shuffle(pts)
+        return [[x for x, _ in pts], [y for _, y in pts]]
+
+    def _lattice_points(self, rng, n):
+        """uniformly fine point set: the (n+1)^2 lattice, interior points jittered by < 1/(4n),
+        boundary points moved along their edge only (so the boundary is refined as well)"""
+        q = 8 * n
+        pts = set()
+        for a in range(n + 1):
+            for b in range(n + 1):
+                x, y = 8 * a, 8 * b
+                if 0 < a < n:
+                    x += rng.randint(-1, 1)
+                if 0 < b < n:
+                    y += rng.randint(-1, 1)
+                pts.add((x, y))
+        pts = sorted(pts)
+        rng.shuffle(pts)
+        return [[x / q for x, _ in pts], [y / q for _, y in pts]]
+
+    def _fine_spec(self, rng, tier):
+        big = 8 if tier == "quick" else 12
+        r = rng.random()
+        if r < 0.45:
+            n = rng.randint(5, big)
+            return {"structured": [n, n]}
+        if r < 0.7:
+            return {"points": self._lattice_points(rng, rng.randint(4, big - 1))}
+        if r < 0.8:        # anisotropic
+            n, k = rng.randint(5, big), rng.randint(1, 2)
+            return {"structured": [n, k] if rng.random() < 0.5 else [k, n]}
+        if r < 0.9:
+            return {"points": self._graded_points(rng)}
+        return {"points": self._tri_points(rng, tier, n_in=rng.randint(12, 30 if tier == "quick" else 60),
+                                           n_bd=rng.randint(6, 14), m=32)}
+
+    def _coarse_spec(self, rng):
+        r = rng.random()
+        if r < 0.6:
+            return {"structured": rng.choice([[1, 1], [1, 1], [2, 2], [1, 2], [2, 1]])}
+        return {"points": self._tri_points(rng, "quick", n_in=rng.randint(0, 1), n_bd=0)}
+
     def _tri_case(self, rng, tier):
         def one():
             if rng.random() < 0.2:
                 return {"structured": [rng.randint(1, 3), rng.randint(1, 3)]}
             return {"points": self._tri_points(rng, tier)}
-        a = one()
-        b = a if rng.random() < 0.1 else one()
-        return {"kind": "m2", "new": a, "old": b, "rot": rng.randrange(len(ROTS)),
+        if rng.random() < 0.55:
+            # strongly different resolutions, in both orders
+            a, b = self._fine_spec(rng, tier), self._coarse_spec(rng)
+            stream = "fine-new/coarse-old"
+            if rng.random() < 0.5:
+                a, b = b, a
+                stream = "coarse-new/fine-old"
+        else:
+            a = one()
+            b = a if rng.random() < 0.1 else one()
+            stream = "comparable"
+        return {"kind": "m2", "stream": stream, "new": a, "old": b, "rot": rng.randrange(len(ROTS)),
                 "org": [rng.randint(-4, 4) / 2 for _ in range(3)], "tol": 2.0 ** -12}
 
     def generate(self, rng, n, tier):
-        n2 = min(max(n // 13, 1), 300)
+        n2 = min(max(n // 8, 1), 360)
         for k in range(n - n2):
             yield self._line_case(rng, tier, "lt" if k % 2 == 0 else "m1")
         for _ in range(n2):
@@ -351,7 +420,9 @@ class C33(Prop):
         # 2-D: exact areas of the generated triangles (plane coordinates are dyadic)
         a_new = [_tri_area(res["p_new"], t) for t in res["t_new"]]
         a_old = [_tri_area(res["p_old"], t) for t in res["t_old"]]
-        if min(a_new) <= 0 or min(a_old) <= 0 or sum(a_new) != 1 or sum(a_old) != 1:
+        eps = F(1, 10 ** 12)
+        if (min(a_new) <= 0 or min(a_old) <= 0 or abs(sum(a_new) - 1) > eps
+                or abs(sum(a_old) - 1) > eps):
             return None  # Delaunay did not deliver a tessellation of the unit square
         return a_new, a_old
 
